@@ -581,3 +581,7 @@ package gorm
 //@   match call gorm.(*DB).Find
 //@   in gorm.(*DB).FindInBatches
 //@   assume-after database-returns-at-most-limit-rows: 0 <= result.RowsAffected && result.RowsAffected <= batchSize
+//@ site batch-callback
+//@   match callparam fc
+//@   in gorm.(*DB).FindInBatches
+//@   assume-after callback-leaves-the-query-handle-alone: local(result).RowsAffected == old(local(result).RowsAffected) && local(result).Error == old(local(result).Error)
